@@ -322,6 +322,7 @@ class Schema(dict, metaclass=LogicalMeta):
 
         context = self.__parser__.make_context(force_error=True)
         value = field.parse_value(value, context=context)
+        context.raise_error()  # collect_errors must not let an unparsed assignment through
 
         if field.property:
             if callable(setter):
